@@ -50,28 +50,45 @@ def gen_string(r):
     return r.choice(["/%s.?%s/", "/%s[a-z]*%s/", "/(%s|zz)%s/"]) % (a, b), w
 
 
+NSNAMES = ["default", "nsb", "nsc"]
+
+
 def gen_company(r, gid):
     n = r.randint(2, 9)
+    nns = r.choice([1, 1, 2, 3])
     rules, planted = [], []
+    per_ns, wild_used = {}, set()
     for i in range(n):
-        ns = r.randint(1, 3)
-        strs, conds = [], []
-        for j in range(ns):
+        ns = r.randrange(nns)
+        k = per_ns.get(ns, 0)                      # index within the namespace: rule names repeat across namespaces on purpose
+        per_ns[ns] = k + 1
+        nstr = r.randint(1, 3)
+        strs = []
+        for j in range(nstr):
             txt, w = gen_string(r)
             strs.append("$s%d = %s" % (j, txt))
             planted.append(w)
         base = r.choice(["any of them", "all of them", "$s0", "#s0 > 1", "$s0 at %d" % r.randint(0, 20), "$s0 in (0..%d)" % r.randint(5, 60),
-                         "for any of them : (# >= 1)", "@s0[1] < 30", "!s0[1] >= 1", "%d of them" % r.randint(1, ns)])
+                         "for any of them : (# >= 1)", "@s0[1] < 30", "!s0[1] >= 1", "%d of them" % r.randint(1, nstr)])
         deps = []
-        if i > 0 and r.random() < 0.3:
-            d = r.randint(0, i - 1)
+        earlier = [x["idx"] for x in rules if x["ns"] == ns]
+        earlier_r = [x["idx"] for x in rules if x["ns"] == ns and x["name"].startswith("r")]
+        u = r.random()
+        if earlier and u < 0.3:
+            d = r.choice(earlier)
             deps.append(d)
-            base = "(%s) %s %sr%d" % (base, r.choice(["and", "or"]), r.choice(["", "not "]), d)
-        if any("$s%d" % j not in base and "them" not in base for j in range(ns)):
+            base = "(%s) %s %s%s" % (base, r.choice(["and", "or"]), r.choice(["", "not "]), rules[d]["name"])
+        elif earlier_r and u < 0.5:
+            deps += earlier_r                                  # wildcard rule set: every earlier rule of this namespace named r*
+            wild_used.add(ns)
+            base = "(%s) %s %s of (r*)" % (base, r.choice(["and", "or"]), r.choice(["any", "all", "1", "none"]))
+        if any("$s%d" % j not in base and "them" not in base for j in range(nstr)):
             base = "(%s) or (any of them and false)" % base           # every string must be referenced
         private = "private " if r.random() < 0.1 else ""
-        text = "%srule r%d { strings: %s condition: %s }" % (private, i, " ".join(strs), base)
-        rules.append(dict(idx=i, text=text, deps=deps))
+        # once `(r*)` was used in a namespace, later rule identifiers there must not match it (IDENTIFIER_MATCHES_WILDCARD)
+        name = ("w%d" if (ns in wild_used and "(r*)" not in base) or (ns in wild_used and any("(r*)" in rules[d]["text"] for d in earlier)) else "r%d") % k
+        text = "%srule %s { strings: %s condition: %s }" % (private, name, " ".join(strs), base)
+        rules.append(dict(idx=i, ns=ns, name=name, text=text, deps=deps))
     bufs = []
     for _ in range(3):
         b = bytearray()
@@ -82,6 +99,25 @@ def gen_company(r, gid):
             b += v
         bufs.append(bytes(b[:200]))
     return rules, bufs
+
+
+def emit(rules, order, r=None, split=False):
+    """h_scan tokens compiling the rules `order` (indices) in that order: one add_string per run of equal namespace
+    (or, with split, further cut at random rule boundaries)"""
+    toks, cur, chunk = [], None, []
+
+    def flush():
+        if chunk:
+            toks.append("ns=%s src=%s" % (NSNAMES[cur], hx("\n".join(chunk))))
+    for i in order:
+        x = rules[i]
+        if x["ns"] != cur or (split and chunk and r.random() < 0.5):
+            flush()
+            chunk = []
+            cur = x["ns"]
+        chunk.append(x["text"])
+    flush()
+    return " ".join(toks)
 
 
 def closure(rules, i):
@@ -106,14 +142,14 @@ def split_tokens(r, text, pieces):
     return out
 
 
-def result_of(line, rule_name):
-    """(verdict, match list) of one rule from an h_scan output line"""
+def result_of(line, nsname):
+    """(verdict, match list) of one rule (given as 'namespace:name') from an h_scan output line produced with nsm=1"""
     t = line.split()
     if len(t) < 3 or t[1] != "OK":
         return (" ".join(t[1:3]),)
-    rules = dict(x.split("=") for x in t[2][6:].split(",")) if t[2] != "rules=-" else {}
-    verdict = rules.get("default:" + rule_name, "private-or-absent")
-    ms = [x for x in t[3][2:].split(";") if x.startswith(rule_name + ".")] if t[3] != "m=-" else []
+    rules = dict(x.rsplit("=", 1) for x in t[2][6:].split(",")) if t[2] != "rules=-" else {}
+    verdict = rules.get(nsname, "private-or-absent")
+    ms = [x for x in t[3][2:].split(";") if x.startswith(nsname + ".")] if t[3] != "m=-" else []
     return (verdict, tuple(ms))
 
 
@@ -128,49 +164,52 @@ def run(tier, replay=None):
     metas = {}
     for g in range(ng):
         rules, bufs = gen_company(r, g)
-        metas[g] = dict(rules=[x["text"] for x in rules], bufs=[hx(x) for x in bufs])
-        full = "\n".join(x["text"] for x in rules)
+        metas[g] = dict(rules=["%s: %s" % (NSNAMES[x["ns"]], x["text"]) for x in rules], bufs=[hx(x) for x in bufs],
+                        names=["%s:%s" % (NSNAMES[x["ns"]], x["name"]) for x in rules])
+        allidx = list(range(len(rules)))
+        single_ns = len({x["ns"] for x in rules}) == 1
         for bi, buf in enumerate(bufs):
             ref = "g%d_b%d_full" % (g, bi)
-            lines.append("%s src=%s %sbuf=%s" % (ref, hx(full), "atoms=1 cands=1 actab=1 " if bi == 0 else "", hx(buf)))
+            lines.append("%s %s nsm=1 %sbuf=%s" % (ref, emit(rules, allidx), "atoms=1 cands=1 actab=1 " if bi == 0 else "", hx(buf)))
             for x in rules:
                 i = x["idx"]
-                alone = "\n".join(rules[k]["text"] for k in closure(rules, i))
                 lid = "g%d_b%d_alone%d" % (g, bi, i)
-                lines.append("%s src=%s buf=%s" % (lid, hx(alone), hx(buf)))
+                lines.append("%s %s nsm=1 buf=%s" % (lid, emit(rules, closure(rules, i)), hx(buf)))
                 plan.append((g, i, "alone", lid, ref))
             # prefixes (adding rules never changes earlier results)
             k = r.randint(1, len(rules) - 1)
             lid = "g%d_b%d_prefix%d" % (g, bi, k)
-            lines.append("%s src=%s buf=%s" % (lid, hx("\n".join(x["text"] for x in rules[:k])), hx(buf)))
+            lines.append("%s %s nsm=1 buf=%s" % (lid, emit(rules, allidx[:k]), hx(buf)))
             for i in range(k):
                 plan.append((g, i, "prefix%d" % k, lid, ref))
-            # permutation that keeps dependencies before dependants
-            order = list(range(len(rules)))
-            for _ in range(len(rules) * 2):
+            # permutation that keeps dependencies before dependants (this also reorders / re-enters namespaces)
+            order = list(allidx)
+            for _ in range(len(rules) * 3):
                 a = r.randint(0, len(rules) - 2)
                 x, y = order[a], order[a + 1]
-                if x not in closure(rules, y):
+                if x not in closure(rules, y) and not (rules[x]["ns"] == rules[y]["ns"] and "(r*)" in rules[y]["text"] + rules[x]["text"]):
                     order[a], order[a + 1] = y, x
             lid = "g%d_b%d_perm" % (g, bi)
-            lines.append("%s src=%s buf=%s" % (lid, hx("\n".join(rules[k]["text"] for k in order)), hx(buf)))
-            for i in range(len(rules)):
+            lines.append("%s %s nsm=1 buf=%s" % (lid, emit(rules, order), hx(buf)))
+            for i in allidx:
                 plan.append((g, i, "perm", lid, ref))
-            # source split over several add_string calls
-            pieces = split_tokens(r, full, r.randint(2, 4))
+            # the same text cut at rule boundaries over more add_string calls
             lid = "g%d_b%d_split" % (g, bi)
-            lines.append("%s %s buf=%s" % (lid, " ".join("src=%s" % hx(p) for p in pieces if p.strip()), hx(buf)))
-            for i in range(len(rules)):
+            lines.append("%s %s nsm=1 buf=%s" % (lid, emit(rules, allidx, r, split=True), hx(buf)))
+            for i in allidx:
                 plan.append((g, i, "split", lid, ref))
-            # nested includes: first piece includes the rest
-            if len(pieces) >= 2:
+            # nested includes (single-namespace companies): first piece includes the rest
+            if single_ns and len(rules) >= 2:
+                pieces = [x["text"] for x in rules]
+                cut = sorted(r.sample(range(1, len(pieces)), min(len(pieces) - 1, r.randint(1, 3))))
+                groups = [pieces[a:b] for a, b in zip([0] + cut, cut + [len(pieces)])]
                 lid = "g%d_b%d_inc" % (g, bi)
-                incs, main = [], pieces[0] + '\ninclude "f1"\n'
-                for pi, p in enumerate(pieces[1:], 1):
-                    body = p + ('\ninclude "f%d"\n' % (pi + 1) if pi + 1 < len(pieces) else "")
+                incs, main = [], "\n".join(groups[0]) + '\ninclude "f1"\n'
+                for pi, grp in enumerate(groups[1:], 1):
+                    body = "\n".join(grp) + ('\ninclude "f%d"\n' % (pi + 1) if pi + 1 < len(groups) else "")
                     incs.append("inc=f%d:%s" % (pi, hx(body)))
-                lines.append("%s %s src=%s buf=%s" % (lid, " ".join(incs), hx(main), hx(buf)))
-                for i in range(len(rules)):
+                lines.append("%s %s ns=%s src=%s nsm=1 buf=%s" % (lid, " ".join(incs), NSNAMES[rules[0]["ns"]], hx(main), hx(buf)))
+                for i in allidx:
                     plan.append((g, i, "include", lid, ref))
     if replay:
         lines = replay["lines"]; plan = [tuple(p) for p in replay["plan"]]; metas = {int(k): v for k, v in replay["metas"].items()}
@@ -205,7 +244,11 @@ def run(tier, replay=None):
         a, bref = om.get(lid), om.get(ref)
         if a is None or bref is None:
             continue
-        ra, rb = result_of(a, "r%d" % i), result_of(bref, "r%d" % i)
+        key = None
+        for mline in metas[g]["rules"]:
+            pass
+        nsname = metas[g]["names"][i] if "names" in metas[g] else "default:r%d" % i
+        ra, rb = result_of(a, nsname), result_of(bref, nsname)
         hist[variant.rstrip("0123456789")] = hist.get(variant.rstrip("0123456789"), 0) + 1
         if len(rb) == 2 and rb[1]:
             nontriv.add((g, i, lid.split("_")[1]))
